@@ -3,7 +3,7 @@
 seed="$1"; shift
 cd /repo || exit 2
 if ! git diff --quiet; then echo "/repo dirty"; exit 2; fi
-if ! git apply "$seed/patch.diff" 2>/dev/null; then git apply -3 "$seed/patch.diff" 2>/dev/null || { echo "patch does not apply"; git checkout -- .; exit 2; }; git reset -q; fi
+if ! git apply "$seed/patch.diff" 2>/dev/null; then echo "patch does not apply"; git checkout -- . ; exit 2; fi
 for p in "$@"; do
   out=$(/verif/bin/rcheck -prop "$p" -out /tmp/tryseed_out 2>&1); rc=$?
   echo "== $(basename $seed) vs $p: exit=$rc"
